@@ -740,3 +740,37 @@ pub fn to_sources(rendered: &[Rendered]) -> crate::oal::Sources {
         files,
     }
 }
+
+/// Layout with tape-chosen trivia between tokens: blanks, tabs, LF, CRLF, line comments and block
+/// comments (with multi-byte characters), always at least one blank between two tokens.
+pub fn render_trivia(prog: &Program, t: &mut crate::tape::Tape) -> Vec<Rendered> {
+    const SEPS: [&str; 14] = [
+        " ", " ", "\n", "  ", "\t", "\r\n", " \n ", " // c\n", " /* c */ ", "\n// caf\u{e9} \u{1F600}\n", " /* \u{20ac}\n multi */\n", "\r\n\t", " /**/ ", "\n\n",
+    ];
+    (0..prog.modules.len())
+        .map(|mi| {
+            let mut r = Renderer::new(prog);
+            r.module(mi);
+            let mut seps: Vec<String> = Vec::with_capacity(r.toks.len());
+            for (i, tok) in r.toks.iter().enumerate() {
+                let s = if i == 0 {
+                    if t.chance(1, 4) {
+                        t.pick(&SEPS).to_owned()
+                    } else {
+                        String::new()
+                    }
+                } else if tok.glue && t.chance(1, 2) {
+                    String::new()
+                } else if t.chance(1, 3) {
+                    t.pick(&SEPS).to_owned()
+                } else if tok.stmt_start.is_some() {
+                    "\n".to_owned()
+                } else {
+                    " ".to_owned()
+                };
+                seps.push(s);
+            }
+            layout(&prog.modules[mi].file, r.toks, |i, _| seps[i].clone())
+        })
+        .collect()
+}
